@@ -194,7 +194,11 @@ def scale(c, t):
         return const(c * t.args[0], t.sort if c.denominator == 1 else "R")
     sort = t.sort if c.denominator == 1 else "R"
     if t.op == "add":
-        return _mk("add", (c * t.args[0], tuple((c * k, b) for k, b in t.args[1])), sort)
+        c0 = c * t.args[0]
+        items = tuple((c * k, b) for k, b in t.args[1])
+        if c0 == 0 and len(items) == 1 and items[0][0] == 1:
+            return items[0][1]
+        return _mk("add", (c0, items), sort)
     return _mk("add", (Fraction(0), ((c, t),)), sort)
 
 
